@@ -1,6 +1,7 @@
 package main
 
-// gotrans: a small, general translator from a loop-free, side-effect-free subset of Go
+// gotrans: a small, general translator from a subset of Go (pure functions, loops with a
+// stated bound, and effects on the receiver / arguments made explicit as extra results)
 // to Gallina.  It is applied (gotrans_apply.go) to the small pure functions of robfig/soy
 // that the hand-written Coq models mirror; every translated function is emitted as
 //
@@ -20,8 +21,13 @@ package main
 //     switch x.(type) over a data.Value (the bound variable may not be used)
 //     var x [T] [= e]    x := e    x = e    x op= e    x++    x--   (locals only: lets)
 //     v, ok := m[k]      _, ok := v.(data.T)
-//     for _, x := range xs { if cond { return e } }   (first match, over a slice)
+//     for _, x := range xs { if cond { return e } }   (first match, over a slice: List.find)
 //     for i := 0; i < len(s); i++ { if cond(s[i]) { return e } }  (same, over the bytes)
+//     every other for / range-over-a-slice loop, with break and continue (LOOPS below)
+//     x.f = e   x.f op= e   x.f++   m[k] = e   s[i] = e   s[i].f = e   *p = e   (STATE below)
+//     calls of methods that do such things, as statements or as the whole right-hand side
+//     append(s, x...)   make(map[K]V)   map[K]V{k: v, ...}   T{...} for a struct of the subset
+//     log.Print* (skipped: the process log is not modelled), hooks named in the configuration
 //     panic(...)  and calls of methods whose own body ends in panic (t.errorf ...)
 //   over bool, the integer types (int, rune, byte, uint32, uint64, named ones such as
 //   itemType, ast.Pos, ast.AutoescapeType), string, []byte, slices and maps of those,
@@ -53,6 +59,47 @@ package main
 //     new let.  Everything else the translator binds lives in other name spaces (val_*, uni_*,
 //     f_*, o<n>, V), so no Go name can capture it.  Control flow is translated by continuation: `if c { A }; rest` becomes
 //     `if c then [A; rest] else [rest]`.
+//
+// LOOPS
+//   A loop becomes a top-level Fixpoint <function>_loop<k> (k = number of the loop in source
+//   order; _v2 ... when the same loop is reached with different bindings).  Its parameters are,
+//   in this order: the fuel, the implicit parameters, the variables the loop only reads (in
+//   declaration order), the variables it assigns (its state, in declaration order).  It returns
+//   option (go_flow State Result): go_exit st = the loop ended (condition false, or break) in
+//   state st; go_ret r = a return statement ran; None = Go panics inside the loop OR THE FUEL RAN
+//   OUT.  The fuel is
+//     - S (Z.to_nat (b - a)) [+1 for <=] for `for i := a; i < b; i++` (and the mirrored i-- forms)
+//       whose body assigns neither i nor anything b reads: provably enough, never exhausted;
+//     - S (len xs) for `for i := range xs`; none at all for `for _, x := range xs` / `for i, x :=
+//       range xs` (structural recursion over the list; xs is evaluated once, as in Go);
+//     - for every other loop, the measure stated for it in gotrans_apply.go (gtCfg.fuel: a Go
+//       expression over what is in scope at the loop, meaning "iterations + 1 at most").  A
+//       measure that is too small makes the translation answer None where Go goes on; a lemma
+//       `model = Some ...` about the function therefore also proves the measure sufficient, and
+//       where a lemma states None it says which of the two it is.
+//   Range over the runes of a string is not in the subset.
+//
+// STATE
+//   Go's effects on data the caller can see become results.  A function's changed state is
+//     - the fields it assigns of a struct parameter passed by pointer (a method's receiver),
+//     - a slice / map parameter whose ELEMENTS it assigns (by value or by pointer: the elements
+//       are shared with the caller either way), or that it assigns through a pointer (*s = e),
+//     - whatever the methods it calls on those change,
+//   in parameter order, fields in field order; the translated function returns
+//   (changed state ..., results ...).  A call of such a function is accepted as a statement or
+//   as the whole right-hand side of an assignment / declaration, and rebinds the caller's names.
+//   Maps are association lists: m[k] = v replaces the first entry for k or appends one
+//   (go_map_set_*); only lookups observe a map, so the order is not observable.  A struct that
+//   is an element of a slice or map is the tuple of its fields (all must be in the subset).
+//   VALUE SEMANTICS, and what is refused to keep it faithful: the translation treats slices and
+//   maps as values.  That is Go's behaviour as long as no two names reach the same backing
+//   store while one of them is assigned through.  Therefore: `&x` and function literals are
+//   refused; in a function that assigns elements, a local variable of slice / map type must be
+//   fresh (make, a literal, append); a parameter may not be both reassigned and have its elements
+//   assigned.  NOT checked (part of the trusted reading): that two parameters of one call do not
+//   alias each other, and that append's possible reuse of the backing array is not observed
+//   through an older slice.  s[lo:hi] on a slice answers None beyond len (Go allows up to cap,
+//   which is not modelled).
 
 import (
 	"fmt"
